@@ -94,6 +94,8 @@ class Gen:
                 self.third[c] = 3
             if a.get("pipe", 0) == 2:
                 p += ",tok:%d" % self.nexttok(c)
+            if a.get("pipe", 0) == 3:      # identity and a bulk payload in one write: the relay needs several reads in the wake-up that bridges
+                p += ",%s,tok:%d" % (self.bulk(), self.nexttok(c))
             self.lines.append("send c=%d p=%s" % (c, p))
         elif op == "id":
             f = self.third.get(c, 0)
@@ -102,14 +104,22 @@ class Gen:
             p = "id:%d:%d" % (THIRDS[f], THIRDS[t])
             if a.get("plus"):
                 p += ",tok:%d" % self.nexttok(c)
+                if a.get("plus") == 2:
+                    p += ",%s,tok:%d" % (self.bulk(), self.nexttok(c))
             self.lines.append("send c=%d p=%s" % (c, p))
         elif op == "data":
-            self.lines.append("send c=%d p=tok:%d" % (c, self.nexttok(c)))
+            if a.get("bulk"):
+                self.lines.append("send c=%d p=tok:%d,%s,tok:%d" % (c, self.nexttok(c), self.bulk(), self.nexttok(c)))
+            else:
+                self.lines.append("send c=%d p=tok:%d" % (c, self.nexttok(c)))
         elif op == "misc":
             self.lines.append("send c=%d p=%s" % (c, a.get("kind", "unk")))
         elif op == "close":
             self.lines.append("%s c=%d" % ("shutwr" if rng.random() < 0.2 else "close", c))
             self.closed.add(c)
+
+    def bulk(self):
+        return "raw:bin:%d:%d" % (self.rng.choice([4040, 4056, 4064, 4065, 4100, 8192, 9000, 20000, 70000]), self.rng.randrange(1 << 16))
 
     def live(self):
         return sorted(self.open - self.closed)
@@ -138,11 +148,11 @@ def random_action(g, rng, ids=(1, 2)):
     if x < 0.22:
         return {"op": "reg", "c": c, "i": rng.choice(ids)}
     if x < 0.42:
-        return {"op": "con", "c": c, "i": rng.choice(ids), "self": rng.random() < 0.1, "pipe": rng.choice([0, 0, 1, 2])}
+        return {"op": "con", "c": c, "i": rng.choice(ids), "self": rng.random() < 0.1, "pipe": rng.choice([0, 0, 1, 2, 3])}
     if x < 0.60:
-        return {"op": "id", "c": c, "n": rng.choice([1, 2, 3]), "plus": rng.random() < 0.3}
+        return {"op": "id", "c": c, "n": rng.choice([1, 2, 3]), "plus": rng.choice([0, 0, 0, 0, 1, 1, 2])}
     if x < 0.80:
-        return {"op": "data", "c": c}
+        return {"op": "data", "c": c, "bulk": rng.random() < 0.12}
     if x < 0.90:
         return {"op": "misc", "c": c, "kind": rng.choice(["unk", "pong", "empty", "crlf", "ping", "regbad"])}
     return {"op": "close", "c": c}
@@ -193,6 +203,8 @@ def random_behaviours(rng, count, garbage=False):
                     p = "id:%d:%d" % (f, t)
                     if t == 32 and rng.random() < 0.4:
                         p += ",tok:%d" % g.nexttok(c)
+                        if rng.random() < 0.4:
+                            p += ",%s,tok:%d" % (g.bulk(), g.nexttok(c))
                     g.lines.append("send c=%d p=%s%s" % (c, p, " split=%d" % rng.choice([1, 3, 7]) if rng.random() < 0.2 else ""))
                     continue
             if a["op"] == "con" and a.get("pipe", 0) >= 1:
